@@ -24,9 +24,9 @@ claim("C05",
 claim("C06",
       "Single process: GFO.C06.at_most_one_call_and_memory_dict_exact, memory_returns_original (rows and scores are the same function of the emitted positions with memory on and off). "
       "Shared manager dict: GFO.C06.shared_inv / shared_scores_correct / shared_final_union / shared_get_after_contains hold for EVERY interleaving of atomic proxy operations. "
-      "memory_transparent is proved up to equality of the emitted positions (memory_transparent_partial); that equality is examined by paired real runs (memory=True/False, same seed). "
+      "GFO.C06.memory_transparent is a full simulation theorem (Proofs/Transparent.lean): for every backend, deterministic objective and well-formed space the memory=True and the memory=False call from the same state (max_time unset) fail alike or produce the same rows, positions, scores, backend state, counters and best result; paired real runs (memory=True/False, same seed) examine the same statement on the implementation. "
       "Real 2-6 process runs on a logging manager dict are replayed operation by operation on the Lean model.",
-      "Partial: trajectory equality of the memory-on and memory-off run is not a theorem (paired runs). The manager serialises proxy calls (multiprocessing contract).",
+      "memory_transparent assumes max_time is None (a cache hit takes no objective time, so a time limit can cut the two runs at different steps) and a deterministic objective. The manager serialises proxy calls (multiprocessing contract).",
       "Lean 4 proof (cache invariant by induction over steps / over schedules) + differential correspondence incl. recorded real schedules", "DESIGN.md section 5, C06")
 claim("C11",
       "GFO.C11.warm_trusted_rest_evaluated: with any warm-start dictionary, a step whose key is in it is answered from it without an objective call and records the dictionary's score, "
